@@ -398,6 +398,102 @@ def check_core_isolation(ctx):
                 f"context, when check_b's constraints carry the AST ids freed by check_a ({how})", {"kind": "core-isolation"})
 
 
+def check_codehash_orders(ctx):
+    """EXTCODEHASH / EXTCODESIZE / EXTCODECOPY on contracts deployed by setUp — a small library with concrete code and a contract
+    whose runtime carries a symbolic immutable (svm.createUint256 in its constructor): the same test body twice in one run, each
+    test alone and after the others, in several orders. Verdict, path counts, models and the dumped assertion queries (= the
+    path conditions, uid-normalised) of a test must not depend on what ran before it."""
+    from vlib import asm
+    from vlib.artifacts import Fn, TestContract
+
+    lib_rt = asm.assemble_text("PUSH1 0x01 PUSH0 MSTORE PUSH1 0x20 PUSH0 RETURN")
+    lib_blob = asm.creation_code(lib_rt)
+    imm_rt = asm.assemble([("push", 0, 32), ("push", 0), "MSTORE", ("push", 0x20), ("push", 0), "RETURN"], push0=False)
+    tmpl_lab = "imm_tmpl"
+    # constructor of the immutable-carrying contract: w = svm.createUint256("owner"); copy the runtime template; patch w in
+    ctor = asm.svm_create_uint256(b"owner") + [("push", len(imm_rt)), ("ref", tmpl_lab), ("push", 0), "CODECOPY",
+                                               ("push", 1), "MSTORE", ("push", len(imm_rt)), ("push", 0), "RETURN",
+                                               ("mark", tmpl_lab), ("raw", imm_rt)]
+    imm_blob = asm.assemble(ctor)
+    LIB, IMM = e2e.FIRST_CREATED, e2e.FIRST_CREATED + 1
+    setup = []
+    blobs = []
+    for lab, blob in (("lib_blob", lib_blob), ("imm_blob", imm_blob)):
+        setup += [("push", len(blob)), ("ref", lab), ("push", 0), "CODECOPY", ("push", len(blob)), ("push", 0), ("push", 0), "CREATE", "POP"]
+        blobs += [("mark", lab), ("raw", blob)]
+    h = lambda a: [("push", a, 20), "EXTCODEHASH"]  # noqa: E731
+    bodies = {  # fresh labels for every instance
+        "lib": lambda: asm.if_then(h(LIB) + ["ISZERO"], asm.panic(1)),
+        "imm": lambda: asm.if_then(h(IMM) + ["ISZERO"], asm.panic(1)),
+        "both": lambda: asm.if_then(h(LIB) + h(IMM) + ["EQ"], asm.panic(1)),
+        "size": lambda: asm.if_then([("push", IMM, 20), "EXTCODESIZE", ("push", len(imm_rt)), "EQ", "ISZERO"], asm.panic(1)),
+        "copy": lambda: [("push", 32), ("push", 1), ("push", 0), ("push", IMM, 20), "EXTCODECOPY"] +
+                asm.if_then(asm.eq_const([("push", 0), "MLOAD"], 7), asm.panic(1)) +            # immutable == 7: violable
+                asm.if_then(h(IMM) + ["ISZERO"], asm.panic(1)),
+    }
+
+    def contract(names):
+        fns = [Fn("setUp()", setup + ["STOP"] + blobs)]
+        for n in names:
+            kind = n.rstrip("0123456789")
+            fns.append(Fn(f"check_{n}()", bodies[kind]()))
+        return TestContract("HashT", fns)
+
+    def run(names):
+        queries = {}
+
+        def inspect(workdir, _run):
+            import os
+
+            root = os.path.join(workdir, "smt")
+            for dp, _dn, files in os.walk(root):
+                for f in sorted(files):
+                    if f.endswith(".smt2"):
+                        fn = os.path.basename(dp).rstrip("0123456789")
+                        txt = norm_text(open(os.path.join(dp, f)).read())
+                        queries.setdefault(fn, []).append(re.sub(r"check_[a-z]+\d*", "check_X", txt))
+
+        r = run_cfg(contract(names), [], inspect=inspect)
+        out = {}
+        for t in r.results:
+            key = t.name.split("(")[0][len("check_"):]
+            n = norm_result(t, r, False)
+            n["queries"] = sorted(queries.get("check_" + key.rstrip("0123456789"), [])) if len([x for x in names if x.rstrip("0123456789") == key.rstrip("0123456789")]) == 1 else None
+            out[key] = n
+        return out, r
+
+    kinds = ["lib", "imm", "both", "size", "copy"]
+    alone = {}
+    for k in kinds:
+        res, r = run([k])
+        alone[k] = res[k]
+        ctx.count(f"codehash:alone:{k}:exit={res[k]['exitcode']}:paths={res[k]['paths']}")
+        if r.errors:
+            raise RuntimeError(f"codehash scenario broken: {r.errors[:2]}")
+    configs = [["lib", "lib2"], ["imm", "imm2"], ["copy", "copy2"], ["lib", "imm", "both"], ["both", "imm", "lib"], ["imm", "both", "lib", "size"],
+               ["size", "copy", "imm"], ["copy", "lib", "imm"]]
+    if ctx.tier != "quick":
+        configs += [list(p) for p in itertools.permutations(kinds, 3)][:20]
+    for names in configs:
+        res, _r = run(names)
+        ctx.case(f"codehash|{names}")
+        ctx.count("codehash:configurations")
+        for n, got in res.items():
+            base = alone[n.rstrip("0123456789")]
+            if 2 in (got["exitcode"], base["exitcode"]):
+                ctx.count("compare:skipped-timeout")
+                continue
+            diff = [f for f in got if got[f] != base[f] and not (f == "queries" and got[f] is None)
+                    and f != "warnings"]
+            if diff:
+                pos = names.index(n)
+                ctx.violation(
+                    f"extcode-result-depends-on-earlier-use|{n.rstrip('0123456789')}|differs:{'+'.join(diff)}",
+                    f"HashT.check_{n}() run after {names[:pos]} differs from the same body run alone in {diff}: "
+                    + "; ".join(f"{f}: {str(base[f])[:160]!r} -> {str(got[f])[:160]!r}" for f in diff if f != "queries")
+                    + (" (dumped assertion queries differ)" if "queries" in diff else ""), {"kind": "codehash"})
+
+
 # ------------------------------------------------------------------------------------------------ (2) uid streams
 
 
@@ -696,6 +792,7 @@ def correspond(ctx):
     ctx.note(f"uid aliases patched: {names}")
     # fixed-cost parts first
     check_depth_warning(ctx)
+    check_codehash_orders(ctx)
     check_core_isolation(ctx)
     check_siblings(ctx, ctx.scale(300, 1500))
     from props import c15
@@ -740,6 +837,8 @@ def replay(ctx, data) -> bool:
         check_uid(ctx, gen, base, d["seed"])
     elif d.get("kind") == "inv-orders":
         check_invariant_orders(ctx, d["seed"], d["tmpl"], d["depth"])
+    elif d.get("kind") == "codehash":
+        check_codehash_orders(ctx)
     elif d.get("kind") == "core-isolation":
         check_core_isolation(ctx)
     elif d.get("kind") == "cache-orders":
